@@ -1329,6 +1329,15 @@ func (x *Exec) builtin(st *State, fr *Frame, ci *callInfo, name string, args []V
 					}
 					st.Bufs[dst.Back] = bi
 				}
+				defer func() {
+					if bi := st.Bufs[dst.Back]; bi != nil {
+						if cur, ok := st.Heap[dst.Back].(T); ok {
+							nb := *bi
+							nb.Cur = cur.S
+							st.Bufs[dst.Back] = &nb
+						}
+					}
+				}()
 				if dst.Len.S == StrLen(src).S && dst.Off.S == "0" {
 					// destination has exactly the source's length: a full copy
 					st.Heap[dst.Back] = T{S: src.S, So: SString}
@@ -1454,6 +1463,7 @@ type bufInfo struct {
 	N      T
 	Writes []bufWrite
 	Broken bool
+	Cur    string // the buffer's contents after the last copy: any other write invalidates the piece structure
 }
 
 // segLitLen: the length of a byte string when it is known from its segment structure.
@@ -1483,7 +1493,7 @@ func segLitLen(t T) (int64, bool) {
 // is emitted as an obligation ("buffer-layout") when it is not syntactically evident.
 func (x *Exec) bufSegments(st *State, sl *SliceV, cur T) (T, bool) {
 	bi := st.Bufs[sl.Back]
-	if bi == nil || bi.Broken || len(bi.Writes) == 0 || sl.Len.S != bi.N.S {
+	if bi == nil || bi.Broken || len(bi.Writes) == 0 || sl.Len.S != bi.N.S || cur.S != bi.Cur {
 		return T{}, false
 	}
 	ws := bi.Writes
